@@ -68,6 +68,26 @@ def cases(tier: str, seed: int) -> List[Dict[str, Any]]:
     for f in (0.1, 3.0, -0.3):
         for prim in ("scale_fwd", "scale_bwd"):
             out.append({"kind": "prim_history", "prim": prim, "factor": f, "seq": ["float16", "bfloat16", "float32", "float64"], "fresh": True})
+    # "tensors of any shape / dtype": integer and bool tensors take PyTorch's type promotion (0.5 * arange is float)
+    for f in FACTORS:
+        for dt in ("int64", "int32", "bool"):
+            out.append({"kind": "prim_int", "factor": f, "dtype": dt})
+    # requires_grad pattern under NAMED constraints (the scalar of one operand never depends on another's flag)
+    for name, op in _OPS.items():
+        if "constraint" not in op.coords:
+            continue
+        for con in [c for c in op.coords["constraint"] if c not in (None, "", op.coords["constraint"][0])]:
+            cfgc = dict(_dc(op), dtype="float64", constraint=con)
+            if "bias" in op.coords:
+                cfgc["bias"] = True
+            try:
+                t_ = op.make(cfgc, __import__("torch").Generator().manual_seed(0))
+            except (RuntimeError, ValueError, KeyError, IndexError):
+                continue
+            fl = [k for k, v in t_.items() if v.is_floating_point() and k != "attn_mask"]
+            if len(fl) >= 2:
+                for fz in fl:
+                    out.append({"kind": "probe", "op": name, "cfg": cfgc, "seed": seed, "env": f"freeze={fz}"})
     for prim, f, sh, dt in itertools.product(["scale_fwd", "scale_bwd"], FACTORS, PSHAPES,
                                              ["float64", "float32", "bfloat16", "float16"]):
         out.append({"kind": "prim", "prim": prim, "factor": f, "shape": sh, "dtype": dt, "seed": seed})
@@ -101,6 +121,20 @@ def run_case(case: Dict[str, Any]) -> Dict[str, Any]:
             for v in r["violations"]:
                 sub.append({"key": v["key"] + f"|after_dtypes={'>'.join(case['seq'][:i]) or 'none'}", "msg": v["msg"]})
         return {"violations": sub[:4], "steps": len(case["seq"]), "outcome": "prim_history", "nontrivial": True}
+    if case["kind"] == "prim_int":
+        from unit_scaling import scale as S
+
+        f = case["factor"]
+        x = torch.arange(7, dtype=torch.int64).to(getattr(torch, case["dtype"]))
+        ident = f"scale_fwd|dtype={case['dtype']}|factor={'zero' if f == 0 else ('neg' if f < 0 else 'pos')}"
+        try:
+            y = S.scale_fwd(x, f)
+        except Exception as e:  # noqa
+            return {"violations": [exception_violation(e, ident)], "outcome": "raises"}
+        want = x * f  # PyTorch's promotion of (integer tensor) x (python float)
+        if y.dtype != want.dtype or not torch.equal(y, want):
+            viol.append({"key": ident + "|forward_value", "msg": f"scale_fwd({x.tolist()}, {f}) = {y.tolist()} ({y.dtype}), expected {want.tolist()} ({want.dtype})"})
+        return {"violations": viol, "nontrivial": True, "outcome": "prim_int"}
     if case["kind"] == "prim":
         from unit_scaling import scale as S
 
